@@ -152,6 +152,12 @@ func (f *File) Readdir(n int) ([]FileInfo, error)    { return f.f.Readdir(n) }
 func (f *File) Readdirnames(n int) ([]string, error) { return f.f.Readdirnames(n) }
 
 func (f *File) Read(p []byte) (int, error) {
+	if f.w != nil && f.w == simrt.W() && f.w.FaultFilter != nil {
+		if ft, ok := f.w.CheckFault("read", f.rel); ok {
+			f.w.Emit(simrt.Event{Kind: simrt.EvFault, Path: f.rel, Note: "read:" + ft.Errno})
+			return 0, &fs.PathError{Op: "read", Path: f.f.Name(), Err: errnoOf(ft.Errno)}
+		}
+	}
 	if f.w != nil && f.w == simrt.W() && f.w.ReadChunkMax > 0 && len(p) > 1 {
 		max := f.w.ReadChunkMax
 		if max > len(p) {
